@@ -13,7 +13,8 @@ import warnings
 VERIF = os.path.dirname(os.path.dirname(os.path.abspath(__file__)))
 REPO = os.path.abspath(os.environ.get("VERIF_REPO", "/repo"))
 SRC = os.path.join(REPO, "src")
-DEPS = os.path.join(VERIF, ".deps")
+# one directory per interpreter version: wheels installed by another Python must never shadow this one's packages
+DEPS = os.path.join(VERIF, ".deps", "py%d%d" % sys.version_info[:2])
 BUILD = os.path.join(VERIF, ".build")
 WHEELS = "/opt/veriftools/wheels"
 
@@ -40,13 +41,18 @@ def ensure_deps(install=False):
     """hypothesis must be importable; if it is not in the interpreter's
     site-packages, use (or, with install=True, create) /verif/.deps from the
     offline wheelhouse."""
-    if os.path.isdir(DEPS) and DEPS not in sys.path:
-        sys.path.insert(0, DEPS)
     try:
         import hypothesis  # noqa: F401
         return
     except ImportError:
         pass
+    if os.path.isdir(DEPS) and DEPS not in sys.path:
+        sys.path.insert(0, DEPS)
+        try:
+            import hypothesis  # noqa: F401
+            return
+        except ImportError:
+            pass
     if not install:
         install = True
     os.makedirs(DEPS, exist_ok=True)
